@@ -220,19 +220,7 @@ theorem foldl_extR {β : Type} (f : St → β → St) (hf : ∀ s x, ExtR s (f s
 
 theorem rulePhase1_extR (diff : Differ) (fuel : Nat) (a b : Vsys) (aRules bRules : List Rule) :
     ∀ (rs : List Range) (acc : St × Nat × List InsGroup),
-      ExtR acc.1 (rs.foldl (fun (acc : St × Nat × List InsGroup) r =>
-        let (st, delIdx, inserts) := acc
-        match r.kind with
-        | .del =>
-          (st.emitAll ((aRules.extract r.lowA r.highA).map (fun ru => Cmd.delRule ru.name)), r.highA, inserts)
-        | .ins =>
-          let aPos := max r.lowA delIdx
-          let anchor := (aRules[aPos]?).map (·.name)
-          (st, delIdx, inserts ++ [⟨anchor, r.lowB, r.highB⟩])
-        | .eq =>
-          let st := (List.range (r.highA - r.lowA)).foldl (fun st k =>
-            equalize diff fuel st (aRules.getD (r.lowA + k) default) (bRules.getD (r.lowB + k) default)) st
-          (st, delIdx, inserts)) acc).1 := by
+      ExtR acc.1 (rs.foldl (phase1Step diff fuel aRules bRules) acc).1 := by
   intro rs
   induction rs with
   | nil => intro acc; exact ExtR.refl _
@@ -241,13 +229,17 @@ theorem rulePhase1_extR (diff : Differ) (fuel : Nat) (a b : Vsys) (aRules bRules
     obtain ⟨st, d, ins⟩ := acc
     simp only [List.foldl_cons]
     refine ExtR.trans ?_ (ih _)
-    split
-    · refine ⟨_, rfl, ?_⟩
+    cases hk : r.kind with
+    | del =>
+      rw [phase1Step_del _ _ _ _ _ _ _ _ hk]
+      refine ⟨_, rfl, ?_⟩
       intro c hc
       obtain ⟨ru, _, rfl⟩ := List.mem_map.mp hc
       rfl
-    · exact ExtR.refl _
-    · exact foldl_extR _ (fun s k => (equalize_ext diff fuel s _ _).toR) _ _
+    | ins => rw [phase1Step_ins _ _ _ _ _ _ _ _ hk]; exact ExtR.refl _
+    | eq =>
+      rw [phase1Step_eq _ _ _ _ _ _ _ _ hk]
+      exact foldl_extR _ (fun s k => (equalize_ext diff fuel s _ _).toR) _ _
 
 theorem ExtR.emit (st : St) (c : Cmd) (h : c.isRuleCmd = true) : ExtR st (st.emit c) :=
   ⟨[c], rfl, by simpa using h⟩
@@ -257,24 +249,19 @@ theorem rulePhase2_extR (bRules : List Rule) (inserts : List InsGroup) (st : St)
   unfold rulePhase2
   apply foldl_extR
   intro s g
+  unfold insertGroup
   apply foldl_extR
   intro s ru
-  have h1 := adaptGroups_out s ru.src
-  revert h1
-  generalize adaptGroups s ru.src = r1
-  obtain ⟨src, s1⟩ := r1
-  intro h1
-  simp only at h1 ⊢
-  have h2 := adaptGroups_out s1 ru.dst
-  revert h2
-  generalize adaptGroups s1 ru.dst = r2
-  obtain ⟨dst, s2⟩ := r2
-  intro h2
-  simp only at h2 ⊢
-  have hs : ExtR s s2 := ExtR.of_out_eq (h2.trans h1)
-  split
-  · exact hs.trans ((ExtR.emit _ _ rfl).trans (ExtR.emit _ _ rfl))
-  · exact hs.trans (ExtR.emit _ _ rfl)
+  obtain ⟨src, dst, h⟩ := insertRule_out g.anchor s ru
+  refine ⟨_, h, ?_⟩
+  intro c hc
+  cases hg : g.anchor with
+  | none =>
+    simp only [hg, List.mem_cons, List.not_mem_nil, or_false] at hc
+    subst hc; rfl
+  | some d =>
+    simp only [hg, List.mem_cons, List.not_mem_nil, or_false] at hc
+    rcases hc with rfl | rfl <;> rfl
 
 theorem planState_out_kind (diff : Differ) (a b : Vsys) :
     ∀ c ∈ (planState diff a b).out, c.isRuleCmd = true := by
